@@ -30,3 +30,6 @@ def run(ctx, rep):
     from ..rules import more4
     more4.rule_panel_column(mod, rep)
     more4.rule_segment_scan(mod, rep)
+    from ..rules import more5
+    more5.rule_snode_tests(mod, rep)
+    more5.rule_row_cursor(mod, rep)
